@@ -95,6 +95,7 @@ type Cfg struct {
 	Silent   []spectypes.OperatorID // further faulty operators that never send anything
 	Role     spectypes.BeaconRole
 	Domain   spectypes.DomainType // zero value = testingutils.TestingSSVDomainType
+	Overtake bool                 // offer the OVERTAKE deviation (newest message of an inbox jumps the queue)
 
 	KeySet     *testingutils.TestKeySet
 	Identifier []byte
@@ -171,6 +172,9 @@ func (c *Cfg) String() string {
 	}
 	if c.Policy != nil {
 		s += " policy=" + c.Policy.Name
+	}
+	if c.Overtake {
+		s += " +overtake"
 	}
 	return s
 }
@@ -454,9 +458,13 @@ const (
 	Redeliver
 	Isolate
 	DropAll
+	// Overtake: the newest message addressed to an operator is delivered ahead of everything else
+	// waiting in its inbox (gossip gives no order between different senders: a peer's decided
+	// message overtakes the single commits it aggregates). Only offered when Cfg.Overtake is set.
+	Overtake
 )
 
-var kindNames = [...]string{"deliver", "DROP", "DEFER", "TIMEOUT", "timeout-all-undecided", "REDELIVER", "ISOLATE-until-next-timeout", "LOSE-BROADCAST"}
+var kindNames = [...]string{"deliver", "DROP", "DEFER", "TIMEOUT", "timeout-all-undecided", "REDELIVER", "ISOLATE-until-next-timeout", "LOSE-BROADCAST", "OVERTAKE-inbox"}
 
 type Event struct {
 	Kind EventKind
@@ -588,6 +596,21 @@ func (w *World) put(id int32, only []spectypes.OperatorID) {
 	}
 }
 
+// inboxSpan: index of the oldest and of the newest pending message addressed to `to`, and how many there are.
+func (w *World) inboxSpan(to spectypes.OperatorID) (first, last, n int) {
+	first, last = -1, -1
+	for i, p := range w.Pending {
+		if p.To == to {
+			if first < 0 {
+				first = i
+			}
+			last = i
+			n++
+		}
+	}
+	return
+}
+
 func (w *World) headIndex(to spectypes.OperatorID) int {
 	for i, p := range w.Pending {
 		if p.To == to {
@@ -634,6 +657,14 @@ func (w *World) Deviations() []Event {
 					out = append(out, Event{Kind: Defer, To: h, Msg: w.Pending[i].Msg})
 					break
 				}
+			}
+		}
+	}
+	if w.C.Overtake {
+		for _, h := range w.C.Honest {
+			// with fewer than three waiting messages OVERTAKE equals DEFER
+			if _, l, n := w.inboxSpan(h); n >= 3 {
+				out = append(out, Event{Kind: Overtake, To: h, Msg: w.Pending[l].Msg})
 			}
 		}
 	}
@@ -729,6 +760,16 @@ func (w *World) Apply(ev Event) []Report {
 				break
 			}
 		}
+	case Overtake:
+		i, l, n := w.inboxSpan(ev.To)
+		if n < 2 {
+			panic("qnet: overtake in an inbox with fewer than two messages")
+		}
+		ev.Msg = w.Pending[l].Msg
+		w.Trace[len(w.Trace)-1] = ev
+		p := w.Pending[l]
+		copy(w.Pending[i+1:l+1], w.Pending[i:l])
+		w.Pending[i] = p
 	case Timeout:
 		reps = append(reps, w.timeout(w.Op(ev.To), ev))
 	case TimeoutAll:
@@ -891,7 +932,7 @@ func (w *World) DescribeTrace() []string {
 		if e.Kind != TimeoutAll && e.Kind != DropAll {
 			s += fmt.Sprintf(" op=%d", e.To)
 		}
-		if e.Kind == Deliver || e.Kind == Drop || e.Kind == Defer || e.Kind == Redeliver || e.Kind == DropAll {
+		if e.Kind == Deliver || e.Kind == Drop || e.Kind == Defer || e.Kind == Redeliver || e.Kind == DropAll || e.Kind == Overtake {
 			s += " " + w.P.Describe(e.Msg)
 		}
 		out = append(out, s)
